@@ -28,7 +28,7 @@ static std::string run(std::vector<std::string> const &w)
 {
 	using namespace cppcms;
 	std::string a;
-	if(w.size()>=2 && !vh::unhex(w[1],a) && w[0]!="encsize" && w[0]!="decsize") return "bad-op";
+	if(w.size()>=2 && w[0]!="form" && !vh::unhex(w[1],a) && w[0]!="encsize" && w[0]!="decsize") return "bad-op";
 	vh::exact_buf xa(a);   // pointer overloads read from a heap block of exactly a.size() bytes
 	// one output path per op; the model maps all of them to the same function and the
 	// property predicate is judged on each path's own output
